@@ -36,8 +36,9 @@ RENDERINGS = [
     ('cmd-f', '', ' -f ', '', 'bare'),
 ]
 
-PRINTABLE = frozenset(c for c in range(0x20, 0x100) if chr(c).isprintable())
-SPACE = frozenset(c for c in range(0x100) if chr(c).isspace())
+from symx.sstr import ALPHA as _ALPHA
+PRINTABLE = frozenset(c for c in _ALPHA if c >= 0x20 and chr(c).isprintable())
+SPACE = frozenset(c for c in _ALPHA if chr(c).isspace())
 QUOTES = frozenset(map(ord, '\'"'))
 ALPHABET = {
     'bare': PRINTABLE - SPACE - QUOTES,
